@@ -4,6 +4,7 @@
 package c10
 
 import (
+	"path/filepath"
 	"context"
 	"fmt"
 	"io"
@@ -60,6 +61,9 @@ type Op struct {
 	// Pad > 0 wraps the document as {"d":<doc>,"pad":"<Pad bytes>"}: a large
 	// record (page, chunk and buffer boundaries) without a large case file.
 	Pad int `json:"pad,omitempty"`
+	// Fault (load, file-backed SQLite): the driver fails the row fetch of
+	// this LoadOffset.
+	Fault bool `json:"fault,omitempty"`
 }
 
 func (op Op) doc() string {
@@ -113,6 +117,7 @@ type run struct {
 	saved                                       map[string]eventbus.Offset
 	lastApp                                     eventbus.Offset
 	reopened, chainedLimited, appendAfterReopen bool
+	planA                                       *storekit.FaultPlan // fault driver of store a (file-backed SQLite)
 }
 
 func (r *run) open(which string) (anyStore, error) {
@@ -124,7 +129,11 @@ func (r *run) open(which string) (anyStore, error) {
 		if r.c.Batch > 0 {
 			opts = append(opts, sqlite.WithStreamBatchSize(r.c.Batch))
 		}
-		return storekit.OpenSQLite(r.dir, which+".db", opts...)
+		st, plan, err := storekit.OpenSQLiteFaulty(filepath.Join(r.dir, which+".db"), opts...)
+		if which == "a" {
+			r.planA = plan
+		}
+		return st, err
 	case "sqlitemem":
 		var opts []sqlite.Option
 		if r.c.Batch > 0 {
@@ -457,6 +466,23 @@ func (r *run) step(i int, op Op) {
 	case "load":
 		ss, ok := r.a.(eventbus.SubscriptionStore)
 		if !ok {
+			return
+		}
+		if op.Fault && r.planA != nil {
+			// the row fetch of this LoadOffset fails in the driver: the call
+			// reports an error or answers correctly - never "nothing saved"
+			r.planA.Reset()
+			r.planA.NextFail = 1
+			r.planA.Arm(true)
+			got, err := ss.LoadOffset(r.ctx, op.Sub)
+			r.planA.Reset()
+			if want, has := r.saved[op.Sub]; err == nil && has && got != want {
+				if _, sameplace := r.bind[got]; !sameplace || got == eventbus.OffsetOldest {
+					r.o.Failf("", "%s: LoadOffset(%q) = (%q, nil) although fetching the row failed in the driver; last saved %q", what, op.Sub, got, want)
+					return
+				}
+			}
+			r.o.Class("load_offset_with_a_failing_row_fetch")
 			return
 		}
 		got, err := ss.LoadOffset(r.ctx, op.Sub)
